@@ -71,7 +71,7 @@ def run_extract(work):
     t0 = time.time()
     p = subprocess.run(
         [PY, str(VERIF / "tools" / "extract.py"), "--repo", str(REPO), "--out", str(COQ / "Gen")],
-        env=env_for_impl(work.dir / "tmp"), capture_output=True, text=True, timeout=600,
+        env=env_for_impl(work.dir / "tmp"), capture_output=True, text=True, timeout=300,
     )
     out = p.stdout + p.stderr
     missing = [l for l in out.splitlines() if l.startswith("MISSING ")]
